@@ -104,7 +104,7 @@ def run(case, schedule, crashes=(), seed=0, store="file"):
     out = {}
     try:
         eng = w.add_engine("A")
-        H.install_workers(w, case["definition"], case.get("oracle") or {})
+        H.install_workers(w, case["definition"], case.get("oracle") or {}, dup_replies=case.get("dup_replies", 0))
         st, r = w.create_state_machine("m1", case["definition"], type_=case.get("type", "STANDARD"))
         if st != 200:
             raise HarnessError("CreateStateMachine refused a generated machine: %r" % (r,))
@@ -236,7 +236,9 @@ def judge(case, base, got, crashes):
     # (a fan-out in which a Branch fails relies on the termination markers, which are part of the same in-memory join state: after a restart the redelivered
     #  events of its other Branches are not recognised as belonging to a state that has already failed)
     failing_fanout = has_fanout and (base.get("outcome") or {}).get("status") == "FAILED"
-    if f62_prone(case["definition"]) or failing_fanout or (has_fanout and kinds != ["between"]):
+    if case.get("dups_known") and kinds == ["between"]:
+        fails = [((b + ":fanout") if b.startswith(("task-requested-again", "more-task-requests-than-baseline", "ended-", "leftover-after-restart")) else b, d) for b, d in fails]
+    elif f62_prone(case["definition"]) or failing_fanout or (has_fanout and kinds != ["between"]):
         fails = [(b + ":fanout", d) for b, d in fails]
     return fails, in_prog
 
@@ -347,8 +349,14 @@ def rebuildable_fanouts():
     mp = {"StartAt": "M", "States": {"M": {"Type": "Map", "ItemsPath": "$.items", "ResultPath": "$.r", "End": True, "ItemProcessor": {"StartAt": "I1", "States": {
         "I1": T("byitem", "I2"), "I2": {"Type": "Pass", "Parameters": {"i.$": "$.t"}, "End": True}}}}}}
     out.append(("map", mp, {"items": [{"d": 0}, {"d": 3}, {"d": 1}]}))
+    # a Map that runs in MaxConcurrency blocks: the events held for the finished blocks are what rebuilds their results after a restart (redelivered, they also launch
+    # later blocks again: duplicated requests and notifications are part of recorded finding F62, a lost or changed outcome is not)
+    mpb = {"StartAt": "M", "States": {"M": {"Type": "Map", "ItemsPath": "$.items", "ResultPath": "$.r", "MaxConcurrency": 2, "End": True, "ItemProcessor": {"StartAt": "I1", "States": {
+        "I1": T("byitem", "I2"), "I2": {"Type": "Pass", "Parameters": {"i.$": "$.t"}, "End": True}}}}}}
+    out.append(("map-blocks", mpb, {"items": [{"d": 0}, {"d": 1}, {"d": 0, "k": 2}, {"d": 1, "k": 3}, {"d": 0, "k": 4}]}))
     oracle = {"slow1": {"seq": [{"ok": "$echo", "delay": 3}]}, "byitem": {"seq": [{"ok": "$echo"}], "by_key": {json.dumps({"d": 3}): [{"ok": "$echo", "delay": 3}], json.dumps({"d": 1}): [{"ok": "$echo", "delay": 1}]}}}
-    return [{"definition": d, "input": i, "oracle": oracle, "type": "STANDARD", "label": lab} for lab, d, i in out]
+    oracle["byitem"]["by_key"][json.dumps({"d": 1, "k": 3})] = [{"ok": "$echo", "delay": 1}]
+    return [{"definition": d, "input": i, "oracle": oracle, "type": "STANDARD", "label": lab, "dups_known": lab == "map-blocks"} for lab, d, i in out]
 
 
 def rebuildable_shard(k, seed, tier, nshards=1):
@@ -376,6 +384,53 @@ def rebuildable_shard(k, seed, tier, nshards=1):
         camp.case(c, nontrivial=bool(nt), classes=["rebuildable-fanout-" + case["label"], "crash-between"] + (["in-progress"] if nt else ["outside-execution"]))
         for b, d in fails:
             camp.fail(b, c, d)
+    return camp.export()
+
+
+def orphan_cases():
+    """Sequential machines whose Task is slow: a crash with the request in flight and a down time longer than the worker needs makes the reply wait in the instance's
+    reply queue next to the redelivered Task event; which of the two is delivered first is the schedule's choice (reply first = the 'orphaned response' path)."""
+    T = lambda fn, **kw: dict({"Type": "Task", "Resource": "arn:aws:rpcmessage:local::function:" + fn, "ResultPath": "$.t"}, **kw)
+    oracle = {"slow1": {"seq": [{"ok": "$echo", "delay": 3}]}, "quick": {"seq": [{"ok": "$echo"}]}}
+    one = {"StartAt": "T1", "States": {"T1": T("slow1", Next="P"), "P": {"Type": "Pass", "Parameters": {"got.$": "$.t"}, "End": True}}}
+    two = {"StartAt": "T0", "States": {"T0": T("quick", Next="T1"), "T1": T("slow1", Next="T2"), "T2": T("quick", End=True)}}
+    out = [{"definition": d, "input": {"x": 1}, "oracle": oracle, "type": "STANDARD", "label": lab} for lab, d in (("one-task", one), ("three-tasks", two))]
+    # a worker that answers twice: two replies with the same correlation id are waiting when the engine comes back
+    return out + ([dict(out[0], label="one-task-worker-replies-twice", dup_replies=0.5)] if env.TIER == "thorough" else [])
+
+
+def orphan_shard(k, seed, tier, nshards=1):
+    """Repeated crashes around an orphaned reply: a first crash between two handlings with the request in flight (the engine is down while the worker answers), then a
+    second crash after every single broker operation of the recovery, under schedules that deliver the waiting reply before / after the redelivered Task event."""
+    camp = Campaign(PID, rule=RULE, tier=tier, seed=seed)
+    jobs = []
+    scheds = [[], [1] * 12, [0, 0, 0, 0] + [1] * 8, [2] * 12] if tier != "thorough" else [[], [1] * 12, [0, 0, 0, 0] + [1] * 8, [2] * 12, [0, 1] * 6, [1, 0] * 6, [0, 0, 1, 1] * 3, [3] * 12]
+    for case in orphan_cases():
+        for sched in scheds:
+            base = run(case, sched, ())
+            if base["exceptions"] or not base["quiescent"]:
+                camp.harness_error("baseline of the orphaned-reply case %s is not clean" % case["label"])
+                continue
+            for s1 in range(1, base["steps"] + 1):
+                jobs.append((case, sched, base, s1))
+    for j, (case, sched, base, s1) in enumerate(jobs):
+        if j % nshards != k:
+            continue
+        c1 = {"mode": "between", "step": s1, "down": 5}
+        try:
+            first = run(case, sched, [c1])
+            if first["crashes_left"] or not any(first["in_progress"]):
+                continue
+            for n in range(1, first["ops"] + 1):
+                cr = [c1, {"mode": "op", "n": n, "down": 0}]
+                c = {"definition": case["definition"], "input": case["input"], "oracle": case["oracle"], "type": case["type"], "schedule": sched, "crashes": cr, "dup_replies": case.get("dup_replies", 0)}
+                got = run(case, sched, cr)
+                fails, nt = judge(case, base, got, cr)
+                camp.case(c, nontrivial=bool(nt), classes=["orphaned-reply-" + case["label"], "crash-between+op", "crashes-2"] + (["in-progress"] if nt else ["outside-execution"]))
+                for b, d in fails:
+                    camp.fail(b, c, d)
+        except Exception as e:
+            camp.harness_error("orphaned-reply case crashed the harness: %r %s" % (e, traceback.format_exc()[-600:]))
     return camp.export()
 
 
@@ -407,8 +462,10 @@ def main(tier, seed, replay=None):
         run_shards(camp, __name__, "shard", 16, examples=700)
         run_shards(camp, __name__, "enumerate_shard", 16, examples=12)
         run_shards(camp, __name__, "rebuildable_shard", 16, nshards=16)
+        run_shards(camp, __name__, "orphan_shard", 16, nshards=16)
     else:
         run_shards(camp, __name__, "shard", 8, examples=60)
         run_shards(camp, __name__, "enumerate_shard", 8, examples=3)
         run_shards(camp, __name__, "rebuildable_shard", 8, nshards=8)
+        run_shards(camp, __name__, "orphan_shard", 8, nshards=8)
     return camp.finish()
